@@ -138,7 +138,8 @@ def one_sequence(run, drv, rng, nops):
     for _ in range(nops):
         existing = list(tdp._param_td.keys(True, True))
         op = rng.choice(["set", "set", "setitem", "update", "update", "update_inplace", "update_inplace", "update_td", "del", "pop", "rename",
-                         "lock", "unlock", "apply_", "zero_", "create_nested", "update_clone", "to_double", "select_inplace", "exclude_inplace"])
+                         "lock", "unlock", "apply_", "zero_", "create_nested", "update_clone", "to_double", "select_inplace", "exclude_inplace",
+                         "load_state_dict", "deepcopy", "clone"])
         desc = op
         try:
             with time_limit(60):
@@ -188,6 +189,16 @@ def one_sequence(run, drv, rng, nops):
                     tdp.create_nested(k)
                 elif op == "to_double":
                     holder.double()
+                elif op == "load_state_dict":
+                    sd = {k: v.clone() for k, v in holder.state_dict().items()}
+                    holder.load_state_dict(sd)
+                elif op == "deepcopy":
+                    import copy
+                    holder = copy.deepcopy(holder)
+                    tdp = holder.params
+                elif op == "clone":
+                    holder = Holder(tdp.clone())
+                    tdp = holder.params
                 elif op == "select_inplace" and existing:
                     ks = [k for k in existing if rng.random() < 0.6]
                     desc = f"select_inplace({ks})"
